@@ -99,6 +99,16 @@ impl<'a> Die<'a> {
             .and_then(|val| val.sdata_value())
     });
 
+    // `DW_AT_discr_value` read as an unsigned constant. The compiler stores the constant in the
+    // narrowest fixed-size form, which carries no sign: variant 150 of an enum with a `u16`
+    // tag is `DW_FORM_data1 0x96`. For an unsigned tag the bits of the form must be
+    // zero-extended (`sdata_value` sign-extends them by the size of the form: -106); for a
+    // signed tag (`#[repr(i16)]`, -56 is `DW_FORM_data1 0xc8`) sign extension is right.
+    impl_no_virt!(discr_value_unsigned, Option<u64>, |_, die: GimliDie| {
+        die.attr(DW_AT_discr_value)
+            .and_then(|val| val.udata_value())
+    });
+
     impl_no_virt!(const_value, Option<i64>, |_, die: GimliDie| {
         // an unsigned constant above i64::MAX (`#[repr(u64)] enum E { A = u64::MAX }`) has no
         // signed representation in gimli, keep its bit pattern: a discriminant read from
